@@ -470,6 +470,12 @@ def renderint(repo):
                 continue
             for a in args:
                 res.instances += 1
+                # a numeric IR string (`enum_type.value`, `...integer.modular_value`) pasted as it is
+                if isinstance(a, ast.Attribute) and a.attr in ("value", "modular_value", "minimum_value", "maximum_value") \
+                        and re.search(r"enum|integer|\.type\b", ast.unparse(a.value)):
+                    res.add(f"{HG}|{f.qualname}|{ast.unparse(a)[:40]}", f"the numeric IR string `{ast.unparse(a)}` is formatted into generated "
+                            "code as it is: values at the 64-bit limits (18446744073709551615, -9223372036854775808) are not valid C++ "
+                            "literals; they have to go through _render_integer", HG, a.lineno, f.qualname)
                 for c in ast.walk(a):
                     if isinstance(c, ast.Call) and isinstance(c.func, ast.Name) and c.func.id == "int" and c.args and \
                             re.search(r"\.(value|modular_value|minimum_value|maximum_value|modulus)\b|constant_value\(",
@@ -1560,4 +1566,67 @@ def elemstorage(repo, facts=None):
             res.add("runtime/cpp/emboss_array_view.h|GenericArrayView|element-storage", "GenericArrayView no longer builds elements over "
                     "OffsetStorageType<kElementSize, 0>", "runtime/cpp/emboss_array_view.h", 0, "GenericArrayView")
     res.analysed = [hg.rel, "runtime/cpp/emboss_array_view.h"]
+    return res
+
+
+def charstream(templates):
+    """R-CHARSTREAM (C19): an enum's underlying type is `uint8_t`/`int8_t` when maximum_bits <= 8, and those are character
+    types for `operator<<`.  Wherever a template streams `static_cast<underlying_type<...>::type>(value)` into an ostream
+    the value has to be promoted first (unary `+`, or a cast to a wider integer type); otherwise unnamed values of small
+    enums print as a raw character while every other enum prints the number."""
+    res = RuleResult("R-CHARSTREAM")
+    for name, t in templates.templates.items():
+        text = " ".join(re.sub(r"//[^\n]*", "", t["text"]).split())
+        for m in re.finditer(r"<<\s*(\+?)\s*static_cast<\s*(/\*\*/)?\s*(::)?std::underlying_type<[^>]*>::type\s*>", text):
+            res.instances += 1
+            if m.group(1) != "+":
+                res.add(f"{TEMPLATES}|{name}|char-stream", f"template {name} streams an enum's underlying value without promoting it: for "
+                        "maximum_bits <= 8 the underlying type is (u)int8_t and ostream prints a character (`os << Small(66)` "
+                        "gives \"B\")", TEMPLATES, t["line"], name)
+    if res.instances < 1 and not res.findings:
+        raise AnalysisError("no template streams an enum's underlying value any more")
+    res.analysed = [TEMPLATES]
+    return res
+
+
+def enumunique(repo, schema=None, sites=None):
+    """R-ENUMUNIQUE (C19/C07): snake/SHOUTY -> kCamelCase is not injective (underscores vanish), and one value can have
+    several case spellings, so uniqueness of the *generated* enumerator names is a property of the whole enum that only the
+    back end can check.  Decided: `_propagate_defaults_and_verify_attributes` runs, after the `enum_case` defaults have
+    been propagated, a traversal over [Enum] whose action walks `enum.value`, obtains the names from the same function
+    the emitter uses (`_get_enum_value_names`) and appends an error when a name repeats."""
+    from . import traversal as T
+    from ..irschema import Schema
+    res = RuleResult("R-ENUMUNIQUE")
+    hg = repo.mod(HG)
+    drv = [f for f in hg.top_funcs() if f.name == "_propagate_defaults_and_verify_attributes"]
+    if not drv:
+        raise AnalysisError("header_generator._propagate_defaults_and_verify_attributes not found")
+    res.instances = 2
+    prop_line = None
+    uniq = None
+    for n in walk_no_nested_funcs(drv[0].node):
+        if isinstance(n, ast.Call) and (call_name(n) or "") == "_propagate_defaults":
+            prop_line = n.lineno
+        if isinstance(n, ast.Call) and (call_name(n) or "").endswith("fast_traverse_ir_top_down") and len(n.args) >= 3 \
+                and ast.unparse(n.args[1]).replace(" ", "") == "[ir_data.Enum]" and isinstance(n.args[2], ast.Name):
+            act = hg.funcs.get(n.args[2].id)
+            if act is not None:
+                src = ast.unparse(act.node)
+                if "_get_enum_value_names" in src and "errors.append" in src and ".value" in src:
+                    uniq = (n, act)
+    if uniq is None:
+        res.add(f"{HG}|_propagate_defaults_and_verify_attributes|no-uniqueness-check", "no traversal over [Enum] checks that the generated "
+                "enumerator names of an enum are pairwise different: `ADC_1` and `ADC1` under kCamelCase both become kAdc1 and the "
+                "header does not compile", HG, drv[0].node.lineno, drv[0].name)
+    elif prop_line is None or uniq[0].lineno < prop_line:
+        res.add(f"{HG}|_propagate_defaults_and_verify_attributes|before-defaults", "the uniqueness check runs before the enum_case "
+                "defaults are propagated, so it sees SHOUTY_CASE names only", HG, uniq[0].lineno, drv[0].name)
+    else:
+        # duplicates must be recognised by identity of the *name*, first use remembered
+        src = ast.unparse(uniq[1].node)
+        if not re.search(r"setdefault\(|\bin\s+\w+", src):
+            res.add(f"{HG}|{uniq[1].name}|no-comparison", f"{uniq[1].name} does not compare a name with the names seen so far", HG,
+                    uniq[1].node.lineno, uniq[1].name)
+    res.analysed = [HG]
     return res
